@@ -1,5 +1,7 @@
 import MlModel.Lemmas.ConfusionSharding
 import MlModel.Lemmas.ConfusionSamplewise
+import MlModel.Lemmas.ConfusionTopKShard
+import MlModel.Lemmas.ConfusionNoVocab
 /-!
 # C01 (classification family) — confusion-matrix aggregates are invariant to batching / sharding
 
@@ -241,5 +243,315 @@ theorem C01_classification_samplewise_multioutput (c : Cfg) (keys : List Label) 
   aligned := fun x => by simp [encMultioutput, mark]
 
 end samplewise
+
+/-! ## the same theorem for ANY family of equally shaped count arrays (needed for top-k)
+
+`EncodesG c G okB toBatch D` (`Lemmas/ConfusionGen`): on admissible batches the accumulator computes
+`D`, `D` is a homomorphism `(List X, ++) → (count arrays, pointwise +)`, and the arrays belong to a
+family `G` on which numpy's broadcasting `+` / `+=` are that pointwise sum.  The fixed shapes above
+(`Encodes`) are the instances `G = GoodArr axis W` (`Encodes.toG`). -/
+
+section anyshape
+variable {X : Type} {c : Cfg} {G : Arr Int → Prop} {okB : List X → Prop} {toBatch : List X → Batch}
+  {D : List X → CMArr}
+
+/-- **C01, any shape**: every composition into shards and batches (empty batches and empty shards
+included) merged by `merge_states` ends in the state of one accumulator fed everything in one batch -/
+theorem C01_classification_sharding_any_shape (h : EncodesG c G okB toBatch D)
+    (shards : List (List (List X))) (hok : ∀ sh ∈ shards, ∀ b ∈ sh, okB b)
+    (hall : okB shards.flatten.flatten) (hne : shards.flatten ≠ []) :
+    runSharded c (shards.map (·.map toBatch)) = feedApi c [toBatch shards.flatten.flatten] := by
+  rw [h.sharded shards hok, h.one_batch _ hall, if_neg hne]
+
+/-- one accumulator: feeding the batches one after the other = feeding their concatenation once -/
+theorem C01_classification_batching_any_shape (h : EncodesG c G okB toBatch D)
+    (sh : List (List X)) (hok : ∀ b ∈ sh, okB b) (hall : okB sh.flatten) (hne : sh ≠ []) :
+    feedApi c (sh.map toBatch) = feedApi c [toBatch sh.flatten] := by
+  rw [h.feed_closed sh hok, h.one_batch _ hall, if_neg hne]
+
+/-- any two merge plans (bracketing, order) over the same shard states agree -/
+theorem C01_classification_merge_tree_any_shape (h : EncodesG c G okB toBatch D)
+    (shards : List (List (List X))) (hok : ∀ sh ∈ shards, ∀ b ∈ sh, okB b)
+    (t₁ t₂ : MTree) (h₁ : ∀ i ∈ t₁.leaves, i < shards.length) (hp : t₁.leaves.Perm t₂.leaves) :
+    (do let sts ← shards.mapM fun (sh : List (List X)) => feedApi c (sh.map toBatch)
+        evalTree c sts t₁)
+      = (do let sts ← shards.mapM fun (sh : List (List X)) => feedApi c (sh.map toBatch)
+            evalTree c sts t₂) := by
+  rw [mapM_ok (fun (sh : List (List X)) => feedApi c (sh.map toBatch))
+    (fun sh => (sh.map fun xs => some (D xs)).foldl oadd none) shards
+    (fun sh hsh => h.feed sh (hok sh hsh))]
+  simp only [bind, Except.bind]
+  exact evalTree_permG h.laws c h.guard _ (by
+    intro s hs; obtain ⟨sh, _, rfl⟩ := List.mem_map.mp hs; exact h.feed_good sh) t₁ t₂
+    (by simpa using h₁) hp
+
+end anyshape
+
+/-! ## an ARBITRARY explicit vocabulary (permuted ids, labels sharing a class id)
+
+`Vocab.Has v e`: `e` is a key of the vocabulary and its class id is `< len(vocab)` — exactly the
+labels `_apply_vocab` accepts (`vocabStep_not_has`: anything else is a `KeyError` / `IndexError`).
+The theorems above for `keys.zipIdx` are the special case `has_zipIdx`. -/
+
+theorem C01_classification_multiclass_vocab (c : Cfg) (v : Vocab) (hne : v ≠ [])
+    (hk : c.kind = .cm) (hi : c.input = some .multiclass) (hv : c.vocab = some v)
+    (axis : Option Nat) (hax : axisOf c.average = .ok axis) (h01 : axis = none ∨ axis = some 0)
+    (hb : c.average ≠ .binary) :
+    Encodes c axis v.length (fun xs => ∀ x ∈ xs, v.Has x.1 ∧ v.Has x.2) mcBatch (encMulticlassV v) where
+  axis_ok := h01
+  guard := by simp [hv]
+  batch_eq := fun xs hx => by
+    simp only [batchCM, hk, hi, hv]
+    exact multiclassCM_vocab v hne c.average axis hax hb [] xs hx
+
+theorem C01_classification_multioutput_vocab (c : Cfg) (v : Vocab) (hne : v ≠ [])
+    (hk : c.kind = .cm) (hi : c.input = some .multioutput) (hv : c.vocab = some v)
+    (axis : Option Nat) (hax : axisOf c.average = .ok axis) (h01 : axis = none ∨ axis = some 0)
+    (hb : c.average ≠ .binary) :
+    Encodes c axis v.length
+      (fun xs => ∀ x ∈ xs, (∀ e ∈ x.1, v.Has e) ∧ (∀ e ∈ x.2, v.Has e)) moBatch (encMultioutputV v) where
+  axis_ok := h01
+  guard := by simp [hv]
+  batch_eq := fun xs hx => by
+    simp only [batchCM, hk, hi, hv]
+    exact multioutputCM_vocab v hne c.average axis hax hb [] xs hx
+
+theorem C01_classification_samplewise_multiclass_vocab (c : Cfg) (v : Vocab) (hne : v ≠ [])
+    (hk : c.kind = .samplewise) (hi : c.input = some .multiclass) (hv : c.vocab = some v)
+    (ha : c.average = .samples) :
+    EncodesSamples c v.length (fun xs => ∀ x ∈ xs, v.Has x.1 ∧ v.Has x.2) mcBatch (encMulticlassV v) where
+  batch_eq := fun xs hx => by
+    simp only [batchCM, hk, hi, hv, ha]
+    exact multiclassCM_vocab v hne .samples (some 1) rfl (by decide) [] xs hx
+  aligned := fun x => by simp [encMulticlassV]
+
+theorem C01_classification_samplewise_multioutput_vocab (c : Cfg) (v : Vocab) (hne : v ≠ [])
+    (hk : c.kind = .samplewise) (hi : c.input = some .multioutput) (hv : c.vocab = some v)
+    (ha : c.average = .samples) :
+    EncodesSamples c v.length
+      (fun xs => ∀ x ∈ xs, (∀ e ∈ x.1, v.Has e) ∧ (∀ e ∈ x.2, v.Has e)) moBatch (encMultioutputV v) where
+  batch_eq := fun xs hx => by
+    simp only [batchCM, hk, hi, hv, ha]
+    exact multioutputCM_vocab v hne .samples (some 1) rfl (by decide) [] xs hx
+  aligned := fun x => by simp [encMultioutputV]
+
+/-! ## `TopKConfusionMatrixAggFn` (and the wrapper with a `k_list`)
+
+State of one batch = `topkD`: for the configuration's fixed `ksOf k_list` (distinct positive members
+of `k_list`, increasing — `mem_ksOf`, `ksOf_sorted`) entry `i` of every array is the ordinary count
+array of the batch with every prediction row cut to its first `ks[i]` entries; a row shorter than `k`
+is taken whole, an empty batch gives zeros of the same shape.  No hypothesis on the row lengths, on
+`k_list` beyond "some positive `k`" (otherwise every call raises), or on the batches. -/
+
+/-- multiclass-multioutput input (ragged rankings), explicit vocabulary, `micro` / `macro` -/
+theorem C01_classification_topk_multioutput (c : Cfg) (v : Vocab) (hne : v ≠ [])
+    (hk : c.kind = .topk) (hi : c.input = some .multioutput) (hv : c.vocab = some v)
+    (axis : Option Nat) (hax : axisOf c.average = .ok axis) (h01 : axis = none ∨ axis = some 0)
+    (hb : c.average ≠ .binary) (hks : ksOf c.kList ≠ []) :
+    EncodesG c (GoodK axis (ksOf c.kList).length v.length)
+      (fun xs => ∀ x ∈ xs, (∀ e ∈ x.1, v.Has e) ∧ (∀ e ∈ x.2, v.Has e)) moBatch
+      (topkD axis v.length (ksOf c.kList) (encTopKmo v)) where
+  laws := goodK_laws axis _ _
+  guard := by simp [hv]
+  good := topkD_good axis h01 v.length _ _
+  hom := topkD_append axis h01 v.length _ _
+  batch_eq := fun xs hx => by
+    simp only [batchCM, hk, hi, hv]
+    exact topkCM_closed_mo v hne c.average hb axis hax h01 c.kList hks [] xs hx
+
+/-- multiclass input (one label per example; every `k ≥ 1` sees the single prediction) -/
+theorem C01_classification_topk_multiclass (c : Cfg) (v : Vocab) (hne : v ≠ [])
+    (hk : c.kind = .topk) (hi : c.input = some .multiclass) (hv : c.vocab = some v)
+    (axis : Option Nat) (hax : axisOf c.average = .ok axis) (h01 : axis = none ∨ axis = some 0)
+    (hb : c.average ≠ .binary) (hks : ksOf c.kList ≠ []) :
+    EncodesG c (GoodK axis (ksOf c.kList).length v.length)
+      (fun xs => ∀ x ∈ xs, v.Has x.1 ∧ v.Has x.2) mcBatch
+      (topkD axis v.length (ksOf c.kList) (encTopKmc v)) where
+  laws := goodK_laws axis _ _
+  guard := by simp [hv]
+  good := topkD_good axis h01 v.length _ _
+  hom := topkD_append axis h01 v.length _ _
+  batch_eq := fun xs hx => by
+    simp only [batchCM, hk, hi, hv]
+    exact topkCM_closed_mc v hne c.average hb axis hax h01 c.kList hks [] xs hx
+
+/-- **C01 for top-k, spelled out**: ragged rankings, any `k_list` with a positive member, any explicit
+vocabulary, `micro` or `macro`; any number of shards and batches — empty ones, and batches whose
+longest ranking is shorter than some `k`, included — merged by `merge_states`: same per-`k` counts,
+hence the same derived rates, as the whole dataset in one batch -/
+theorem C01_classification_topk_sharding (sqrt : Rat → Rat) (c : Cfg) (v : Vocab) (hne : v ≠ [])
+    (hk : c.kind = .topk) (hi : c.input = some .multioutput) (hv : c.vocab = some v)
+    (ha : c.average = .micro ∨ c.average = .macro) (hks : ∃ k ∈ c.kList, 0 < k)
+    (shards : List (List (List (List Label × List Label))))
+    (hok : ∀ sh ∈ shards, ∀ b ∈ sh, ∀ x ∈ b, (∀ e ∈ x.1, v.Has e) ∧ (∀ e ∈ x.2, v.Has e))
+    (hdata : shards.flatten ≠ []) :
+    runSharded c (shards.map (·.map moBatch)) = feedApi c [moBatch shards.flatten.flatten] ∧
+    (runSharded c (shards.map (·.map moBatch)) >>= getResult sqrt c)
+      = (feedApi c [moBatch shards.flatten.flatten] >>= getResult sqrt c) := by
+  have hks' : ksOf c.kList ≠ [] := by
+    obtain ⟨k, hk1, hk2⟩ := hks
+    have : k.toNat ∈ ksOf c.kList := (mem_ksOf c.kList k.toNat).mpr ⟨by omega, by
+      rw [Int.toNat_of_nonneg (by omega)]; exact hk1⟩
+    intro h; rw [h] at this; cases this
+  have hall : ∀ x ∈ shards.flatten.flatten, (∀ e ∈ x.1, v.Has e) ∧ (∀ e ∈ x.2, v.Has e) := by
+    intro x hx
+    obtain ⟨b, hb, hxb⟩ := List.mem_flatten.mp hx
+    obtain ⟨sh, hsh, hbsh⟩ := List.mem_flatten.mp hb
+    exact hok sh hsh b hbsh x hxb
+  have key : runSharded c (shards.map (·.map moBatch)) = feedApi c [moBatch shards.flatten.flatten] := by
+    rcases ha with ha | ha
+    · exact C01_classification_sharding_any_shape
+        (C01_classification_topk_multioutput c v hne hk hi hv none (by rw [ha]; rfl) (Or.inl rfl)
+          (by rw [ha]; decide) hks') shards hok hall hdata
+    · exact C01_classification_sharding_any_shape
+        (C01_classification_topk_multioutput c v hne hk hi hv (some 0) (by rw [ha]; rfl) (Or.inr rfl)
+          (by rw [ha]; decide) hks') shards hok hall hdata
+  exact ⟨key, by rw [key]⟩
+
+/-- non-vacuity / the shape of the seeded change C01-m1: `k_list = [1, 3]`, a batch whose rankings
+all have ≤ 2 entries, an empty batch, an empty shard, a permuted vocabulary -/
+example :
+    let c : Cfg := { kind := .topk, metrics := [.PRECISION], single := false, posLabel := 1,
+                     input := some .multioutput, average := .macro,
+                     vocab := some [(7, 2), (8, 0), (9, 1)], kList := [1, 3] }
+    let shards : List (List (List (List Label × List Label))) :=
+      [[[([7], [8, 7]), ([8], [8])], []], [], [[([9, 7], [9, 8, 7])]]]
+    runSharded c (shards.map (·.map moBatch)) = feedApi c [moBatch shards.flatten.flatten] :=
+  (C01_classification_topk_sharding id _ [(7, 2), (8, 0), (9, 1)] (by decide) rfl rfl rfl (Or.inr rfl)
+    ⟨1, by decide, by decide⟩ _ (by decide) (by decide)).1
+
+/-- test (by evaluation): the state of that run, per `k ∈ [1, 3]` and per class id -/
+example :
+    let c : Cfg := { kind := .topk, metrics := [.PRECISION], single := false, posLabel := 1,
+                     input := some .multioutput, average := .macro,
+                     vocab := some [(7, 2), (8, 0), (9, 1)], kList := [1, 3] }
+    runSharded c [[moBatch [([7], [8, 7]), ([8], [8])], moBatch []], [], [moBatch [([9, 7], [9, 8, 7])]]]
+      = .ok (some { tp := .m [[1, 1, 0], [1, 1, 2]], tn := .m [[1, 2, 1], [0, 2, 1]],
+                    fp := .m [[1, 0, 0], [2, 0, 0]], fn := .m [[0, 0, 2], [0, 0, 0]] }) := by
+  rfl
+
+/-! ## WITHOUT a vocabulary (open finding F8): exactly what is invariant and what is not
+
+`multiclass` / `multiclass-multioutput` input, `vocab=None` (or `{}`), `average='micro'`.  Every batch
+`b` deduces its own vocabulary; `ord b` is CPython's enumeration order of its label set (any
+duplicate-free list containing the labels of `b`: `ValidOrd`).  `exTP x = |T ∩ P|`,
+`exFN x = |T \ P|`, `exFP x = |P \ T|` are functions of the example alone.
+
+The full-strength statement "`runSharded … = feedApi [one batch]`" is FALSE here
+(`Witness.C01.C01_classification_F8_witness`); what holds is: -/
+
+/-- **closed form of the state after ANY composition into shards and batches** (multi-output):
+`tp`, `fp`, `fn` are sums over the examples of quantities that do not mention the batch; every
+example contributes `|V_b| − |T ∪ P|` to `tn`, `V_b` the vocabulary of the batch it was fed in
+(`noVocabD` on the examples tagged with `|V_b|`; `noVocabD_tp/_fp/_fn/_tn` read it off) -/
+theorem C01_classification_novocab_state_partial (c : Cfg) (hk : c.kind = .cm)
+    (hi : c.input = some .multioutput) (hv : c.vocab = none ∨ c.vocab = some []) (ha : c.average = .micro)
+    (ord : List LabelSets → List Label) (shards : List (List (List LabelSets)))
+    (hord : ∀ sh ∈ shards, ∀ b ∈ sh, ValidOrd id (ord b) b) :
+    runSharded c (shards.map (·.map fun b => moBatchO (ord b) b))
+      = .ok (if shards.flatten = [] then none
+             else some (noVocabD id (tagShards ord shards).flatten.flatten)) := by
+  have h := (noVocab_multioutput c hk hi hv ha ord).sharded (tagShards ord shards) (by
+    intro sh hsh b hb
+    obtain ⟨sh', hsh', rfl⟩ := List.mem_map.mp hsh
+    obtain ⟨b', hb', rfl⟩ := List.mem_map.mp hb
+    exact tagOK_tag id ord b' (hord sh' hsh' b' hb'))
+  have e : (tagShards ord shards).map (·.map (moBatchT ord))
+      = shards.map (·.map fun b => moBatchO (ord b) b) := by
+    simp only [tagShards, List.map_map]
+    apply List.map_congr_left; intro sh _
+    simp only [Function.comp, List.map_map]
+    apply List.map_congr_left; intro b _
+    simp only [Function.comp, moBatchT, moBatchO, map_fst_tag]
+  rw [e] at h
+  rw [h]
+  by_cases hn : shards.flatten = []
+  · rw [if_pos hn, if_pos ((tagShards_flatten_nil ord shards).mpr hn)]
+  · rw [if_neg hn, if_neg (fun h' => hn ((tagShards_flatten_nil ord shards).mp h'))]
+
+/-- the same for `multiclass` input (one label on each side) -/
+theorem C01_classification_novocab_state_multiclass_partial (c : Cfg) (hk : c.kind = .cm)
+    (hi : c.input = some .multiclass) (hv : c.vocab = none ∨ c.vocab = some []) (ha : c.average = .micro)
+    (ord : List (Label × Label) → List Label) (shards : List (List (List (Label × Label))))
+    (hord : ∀ sh ∈ shards, ∀ b ∈ sh, ValidOrd labMc (ord b) b) :
+    runSharded c (shards.map (·.map fun b => mcBatchO (ord b) b))
+      = .ok (if shards.flatten = [] then none
+             else some (noVocabD labMc (tagShards ord shards).flatten.flatten)) := by
+  have h := (noVocab_multiclass c hk hi hv ha ord).sharded (tagShards ord shards) (by
+    intro sh hsh b hb
+    obtain ⟨sh', hsh', rfl⟩ := List.mem_map.mp hsh
+    obtain ⟨b', hb', rfl⟩ := List.mem_map.mp hb
+    exact tagOK_tag labMc ord b' (hord sh' hsh' b' hb'))
+  have e : (tagShards ord shards).map (·.map (mcBatchT ord))
+      = shards.map (·.map fun b => mcBatchO (ord b) b) := by
+    simp only [tagShards, List.map_map]
+    apply List.map_congr_left; intro sh _
+    simp only [Function.comp, List.map_map]
+    apply List.map_congr_left; intro b _
+    simp only [Function.comp, mcBatchT, mcBatchO, map_fst_tag]
+  rw [e] at h
+  rw [h]
+  by_cases hn : shards.flatten = []
+  · rw [if_pos hn, if_pos ((tagShards_flatten_nil ord shards).mpr hn)]
+  · rw [if_neg hn, if_neg (fun h' => hn ((tagShards_flatten_nil ord shards).mp h'))]
+
+/-- **`tp`, `fp`, `fn` do not depend on the batching, `tn` does — by exactly the difference of the
+vocabulary sizes the examples are counted against.**  Two arbitrary compositions (with their own set
+orders) of the same dataset: both runs succeed, agree on `tp`, `fp`, `fn`, and
+`tn₁ − tn₂ = Σ_{b ∈ run 1} |b|·|V_b| − Σ_{b ∈ run 2} |b|·|V_b|` (each sum taken example by example).
+So finding F8 is confined to `tn` (and, for `macro`, to the class axis, which `merge_states` refuses). -/
+theorem C01_classification_novocab_tp_fp_fn (c : Cfg) (hk : c.kind = .cm)
+    (hi : c.input = some .multioutput) (hv : c.vocab = none ∨ c.vocab = some []) (ha : c.average = .micro)
+    (ord₁ ord₂ : List LabelSets → List Label) (shards₁ shards₂ : List (List (List LabelSets)))
+    (h₁ : ∀ sh ∈ shards₁, ∀ b ∈ sh, ValidOrd id (ord₁ b) b)
+    (h₂ : ∀ sh ∈ shards₂, ∀ b ∈ sh, ValidOrd id (ord₂ b) b)
+    (hsame : shards₁.flatten.flatten = shards₂.flatten.flatten)
+    (hne₁ : shards₁.flatten ≠ []) (hne₂ : shards₂.flatten ≠ []) :
+    ∃ s₁ s₂ : CMArr,
+      runSharded c (shards₁.map (·.map fun b => moBatchO (ord₁ b) b)) = .ok (some s₁) ∧
+      runSharded c (shards₂.map (·.map fun b => moBatchO (ord₂ b) b)) = .ok (some s₂) ∧
+      s₁.tp = s₂.tp ∧ s₁.fp = s₂.fp ∧ s₁.fn = s₂.fn ∧
+      s₁.tn.toS - s₂.tn.toS
+        = ((tagShards ord₁ shards₁).flatten.flatten.map fun y => (y.2 : Int)).sum
+          - ((tagShards ord₂ shards₂).flatten.flatten.map fun y => (y.2 : Int)).sum := by
+  refine ⟨noVocabD id (tagShards ord₁ shards₁).flatten.flatten,
+    noVocabD id (tagShards ord₂ shards₂).flatten.flatten, ?_, ?_, ?_, ?_, ?_, ?_⟩
+  · rw [C01_classification_novocab_state_partial c hk hi hv ha ord₁ shards₁ h₁, if_neg hne₁]
+  · rw [C01_classification_novocab_state_partial c hk hi hv ha ord₂ shards₂ h₂, if_neg hne₂]
+  · rw [noVocabD_tp, noVocabD_tp, tagShards_fst, tagShards_fst, hsame]
+  · rw [noVocabD_fp, noVocabD_fp, tagShards_fst, tagShards_fst, hsame]
+  · rw [noVocabD_fn, noVocabD_fn, tagShards_fst, tagShards_fst, hsame]
+  · rw [noVocabD_tn, noVocabD_tn, tagShards_fst, tagShards_fst, hsame]
+    simp only [Arr.toS]; omega
+
+/-- hence every rate that does not read `tn` (precision, recall, F1, miss rate, FDR, threat score …)
+reports the same value for every batching, vocabulary or not: equal `tp`, `fp`, `fn` ⇒ equal value -/
+theorem C01_classification_novocab_tn_free_rates (a b : Generated.CM Rat) (h1 : a.tp = b.tp)
+    (h2 : a.fp = b.fp) (h3 : a.fn = b.fn) :
+    Generated.Rates.precision a = Generated.Rates.precision b ∧
+    Generated.Rates.recall a = Generated.Rates.recall b ∧
+    Generated.Rates.f1 a = Generated.Rates.f1 b ∧
+    Generated.Rates.miss_rate a = Generated.Rates.miss_rate b ∧
+    Generated.Rates.false_discovery_rate a = Generated.Rates.false_discovery_rate b ∧
+    Generated.Rates.threat_score a = Generated.Rates.threat_score b ∧
+    Generated.Rates.accuracy a = Generated.Rates.accuracy b := by
+  simp [Generated.Rates.precision, Generated.Rates.recall, Generated.Rates.f1, Generated.Rates.miss_rate,
+    Generated.Rates.false_discovery_rate, Generated.Rates.threat_score, Generated.Rates.accuracy,
+    Generated.CM.p, Generated.CM.t, h1, h2, h3]
+
+/-- non-vacuity: the dataset of the F8 witness (`y = ŷ = [[0],[1]]`) in one batch and in two -/
+example :
+    let c : Cfg := { kind := .cm, metrics := [.PRECISION], single := true, posLabel := 1,
+                     input := some .multioutput, average := .micro, vocab := none, kList := [] }
+    let ord : List LabelSets → List Label := fun b => (b.flatMap fun x => x.1 ++ x.2).dedup
+    ∃ s₁ s₂ : CMArr,
+      runSharded c ([[[([0], [0]), ([1], [1])]]].map (·.map fun b => moBatchO (ord b) b)) = .ok (some s₁) ∧
+      runSharded c ([[[([0], [0])]], [[([1], [1])]]].map (·.map fun b => moBatchO (ord b) b)) = .ok (some s₂) ∧
+      s₁.tp = s₂.tp ∧ s₁.fp = s₂.fp ∧ s₁.fn = s₂.fn ∧ s₁.tn.toS - s₂.tn.toS = 2 := by
+  intro c ord
+  obtain ⟨s₁, s₂, e1, e2, h3, h4, h5, h6⟩ := C01_classification_novocab_tp_fp_fn c rfl rfl (Or.inl rfl) rfl
+    ord ord [[[([0], [0]), ([1], [1])]]] [[[([0], [0])]], [[([1], [1])]]]
+    (by decide) (by decide) rfl (by decide) (by decide)
+  exact ⟨s₁, s₂, e1, e2, h3, h4, h5, by rw [h6]; decide⟩
 
 end MlModel.C01
